@@ -16,7 +16,7 @@ CLAIMED = {
              "helpers checked at their call sites and the DNS section-index class invariant); (R4) only "
              "malformed_packet escapes a parser and only libtins exceptions escape accessors/decoders, with residues "
              "discharged by checked value bounds. Two genuine defects found this way (DNS::compose_name over-read, "
-             "DNS::update_dname) were repaired with fix: commits.",
+             "DNS::update_dname) were repaired with fix: commits. (R5) the cursor classes themselves (Memory::InputMemoryStream / OutputMemoryStream, 109 obligations over all instantiations): position and remaining size move together under n <= size_, can_read(n) is size_ >= n, every byte access at the cursor is guarded for its length and followed by skip of that length - the premises E-BOUNDS uses for every parser.",
         note="NOT decided: termination bounds beyond loop shape, leaks, alignment/shift/overflow UB, allocation failure. "
              "Assumes buffers < 4 GiB, no overflow in additions of 32-bit lengths, little-endian arm, std::vector move "
              "semantics. update_records' content-dependent walk is a recorded known finding under C10.",
@@ -35,7 +35,7 @@ CLAIMED = {
              "is written only at offsets the cursor already accepted, and the symbolic raw writes of ICMP/ICMPv6 (extension "
              "block and padding) lie inside the layer's trailer region on every cell - found and fixed the ICMP extension "
              "offset for timestamp/address-mask messages; (R4) the driver composes the layers' regions; (R5) no "
-             "throw site other than the cursor's bound checks and 8 tabled, reasoned ones is reachable while serialising. (R6) the caching wrapper PDUCacher<T> copies into the output buffer exactly size() bytes of the container it copies from (never total_sz, which also counts the layers stacked on it). (R1 also requires, for accessor-maintained counts, a dominating test that the count is below the field's maximum before it is incremented; R7: no variable is read after it was handed to std::move.)",
+             "throw site other than the cursor's bound checks and 8 tabled, reasoned ones is reachable while serialising. (R6) the caching wrapper PDUCacher<T> copies into the output buffer exactly size() bytes of the container it copies from (never total_sz, which also counts the layers stacked on it). (R1 also requires, for accessor-maintained counts, a dominating test that the count is below the field's maximum before it is incremented; R7: no variable is read after it was handed to std::move.) (R8) the same cursor invariant, shared with C01.R5: it is what makes the output cursor's bound checks meaningful.",
         note="NOT decided: LLC's cached lengths (1 undecided instance), arbitrary building-API histories beyond R2, uint32 wrap "
              "of sizes. 'Fewer bytes written than counted' is noted, not a violation (zero gap, no overwrite).",
     ),
@@ -192,7 +192,7 @@ CLAIMED = {
              "source without layers, move leaves the source null; (R2) every store of a child into inner_pdu_ is followed "
              "on all paths by parent_pdu(this), release clears the parent; (R3) clone() of every instantiable concrete layer "
              "class returns new K(*this); (R4) user-declared copy members forward to the PDU base. Two genuine defects "
-             "found this way were repaired with fix: commits (see known_findings.json 'fixed'). (R5) outside constructors an owning pointer member is overwritten only after the old target was deleted, saved or handed over on that path; (R6) a layer pointer obtained through the non-owning inner_pdu() getter is never deleted on a path on which the parent has not released it (expected count 0; fixture controls). (R7) a member container whose elements the destructor deletes (found from the destructor: TCPStream's fragment maps) is assigned / cleared outside constructors only after its elements were freed on that path. (R7 also covers element slots `T*& s = cont[k]`: overwritten only when known null or after delete.) (R8) PDUOption: typestate over (size class, heap ownership) through every constructor, assignment operator and the destructor - `real_size_ > small_buffer_size` holds exactly when payload_ owns a heap block at every exit, no delete[] of inline bytes, no pointer overwritten while owned. (R9) PDU::inner_pdu(const PDU&) uses its argument only before the current child chain is released; PDU copy/move members do not take over the source's parent link.",
+             "found this way were repaired with fix: commits (see known_findings.json 'fixed'). (R5) outside constructors an owning pointer member is overwritten only after the old target was deleted, saved or handed over on that path; (R6) a layer pointer obtained through the non-owning inner_pdu() getter is never deleted on a path on which the parent has not released it (expected count 0; fixture controls). (R7) a member container whose elements the destructor deletes (found from the destructor: TCPStream's fragment maps) is assigned / cleared outside constructors only after its elements were freed on that path. (R7 also covers element slots `T*& s = cont[k]`: overwritten only when known null or after delete.) (R8) PDUOption: typestate over (size class, heap ownership) through every constructor, assignment operator and the destructor - `real_size_ > small_buffer_size` holds exactly when payload_ owns a heap block at every exit, no delete[] of inline bytes, no pointer overwritten while owned. (R9) PDU::inner_pdu(const PDU&) uses its argument only before the current child chain is released; PDU copy/move members do not take over the source's parent link. (R10) assignment operators of owning classes do their work on the not-self side of a self test; release_*() leaves the owning member null.",
         note="Deep equality of field values of copies and 'freed exactly once' over arbitrary programs are not decided; "
              "TCPStream's fragment maps (legacy API) are outside R1's structural owner detection.",
     ),
@@ -236,7 +236,7 @@ CLAIMED = {
              "the raw-IP handler); "
              "(R4) every handler marks the frame processed on all paths, "
              "next_packet loops only while no packet was produced and the handler ran, a negative pcap result yields a null "
-             "packet. (R5) every pcap_pkthdr libtins hands to pcap_dump / pcap_offline_filter has caplen and len (and ts for the writer) assigned from the frame on every path to the call; (R6) every Packet constructor / assignment operator that receives a timestamp or another packet object stores that timestamp in ts_ (copy, move, RefPacket, PtrPacket). (R5 also bounds caplen by the size() of the byte container handed to libpcap; R6 also requires a null test before dereferencing the source packet's layer pointer in the copy members.) (R7) in sniff_loop (instantiated in a synthetic TU) the try block that swallows the callback's malformed_packet / pdu_not_found lies inside the packet loop.",
+             "packet. (R5) every pcap_pkthdr libtins hands to pcap_dump / pcap_offline_filter has caplen and len (and ts for the writer) assigned from the frame on every path to the call; (R6) every Packet constructor / assignment operator that receives a timestamp or another packet object stores that timestamp in ts_ (copy, move, RefPacket, PtrPacket). (R5 also bounds caplen by the size() of the byte container handed to libpcap; R6 also requires a null test before dereferencing the source packet's layer pointer in the copy members.) (R7) in sniff_loop (instantiated in a synthetic TU) the try block that swallows the callback's malformed_packet / pdu_not_found lies inside the packet loop. (R8) SnifferIterator: fetches on construction and on both increments, turns into the end iterator when next_packet() yields none, compares by sniffer pointer, != negates ==.",
         note="Byte/timestamp round-trip through PacketWriter/FileSniffer and agreement with libpcap's BPF matcher are "
              "runtime-value clauses and NOT decided. libpcap is assumed to call the handler at most once per pcap_loop(...,1,...).",
     ),
@@ -292,7 +292,7 @@ CLAIMED = {
              "(R6) iteration: increment_buffer / decrement_buffer (IPv6, hardware addresses) are the big-endian successor / predecessor "
              "for every carry length 0..N and return true exactly on wrap-around (abstract interpretation of the carry chain over "
              "{pivot, not pivot, any} bytes of the real length); the scalar IPv4 increment's flag means wrap-around too; the range "
-             "iterator takes its flag from increment(address_) in both the end sentinel and operator++ and compares address and flag. (R7) IPv4Address::from_prefix_length evaluated for all 33 prefix lengths and IPv6Address::from_prefix_length / operator/(HWAddress<6>, int) interpreted byte-wise for all 129 / 49: exact masks, no out-of-range shift (undefined behaviour reported as such); (R8) inet_ntop is given a buffer of at least INET6_ADDRSTRLEN / INET_ADDRSTRLEN bytes and that buffer's size. (R9) the hardware-address printer maps each of the 16 nibble values to its hexadecimal digit, high nibble first. (R4 also rejects scanf/strtoul-style parsing in the address text constructors.)",
+             "iterator takes its flag from increment(address_) in both the end sentinel and operator++ and compares address and flag. (R7) IPv4Address::from_prefix_length evaluated for all 33 prefix lengths and IPv6Address::from_prefix_length / operator/(HWAddress<6>, int) interpreted byte-wise for all 129 / 49: exact masks, no out-of-range shift (undefined behaviour reported as such); (R8) inet_ntop is given a buffer of at least INET6_ADDRSTRLEN / INET_ADDRSTRLEN bytes and that buffer's size. (R9) the hardware-address printer maps each of the 16 nibble values to its hexadecimal digit, high nibble first. (R4 also rejects scanf/strtoul-style parsing in the address text constructors.) (R10) the byte loops of HWAddress<6> (mask operators, broadcast fill) visit exactly positions 0..5.",
         note="NOT decided: IPv4/IPv6 text round trip (delegated to inet_pton/ntop), agreement of < with numeric byte order "
              "(IPv4 host-order storage), prefix-length masks at /0,/31,/32,/127,/128, group structure of the hardware "
              "grammar, the order of visited addresses as a whole (the successor function and the end protocol are decided, R6) - value-level.",
